@@ -195,6 +195,12 @@ def handle_quic_packet(packet: Packet, keylog, quic_sessions: list[QuicSession],
 
 def run():
     """Starts the program"""
+    # the module-level state must not carry anything over from an earlier call in the same interpreter
+    del server_ports[2:]
+    keylog.clear()
+    sessions.clear()
+    quic_sessions.clear()
+
     args = arg_parser_init()
     keep_original_ports = args.keep_original_ports
     portmap = get_port_map(args)
